@@ -25,7 +25,7 @@ RULE = ('plan = seeded prefix history (1-3 identities, random versions, '
         'contains a successful creating request and the probe is id-less or '
         'differs from the last prefix request in version or identity. '
         'Distinct = digest of (prefix results, probe).')
-PROBES = ['probe_after_response_size_limit_on_same_session', 'probe_idless', 'probe_version_switch', 'probe_identity_switch',
+PROBES = ['prefix_corrupted_frame', 'probe_after_response_size_limit_on_same_session', 'probe_idless', 'probe_version_switch', 'probe_identity_switch',
           'prefix_header_reject', 'prefix_failed_batch', 'restart_in_prefix']
 REAL_VS_STUB = {
     'real': ['KmipEngine', 'KmipSession._handle_message_loop/authenticate',
@@ -141,11 +141,19 @@ def generate(rng, tier, index):
     last = None
     for _ in range(n):
         x = r.random()
-        if x < 0.06:
+        if x < 0.04 and last is not None:
+            # a corrupted frame on some client's connection: whatever the
+            # server picked up while reading it must not outlive it
+            from sim import mutate
+            rq = gen.gen_request(ctx, p_batch=0.0)
+            if r.random() < 0.5:
+                rq['maxresp'] = r.choice([64, 200, 400])
+            steps.append({'bad': rq, 'mut': mutate.gen_spec(r)})
+        elif x < 0.10:
             steps.append({'restart': True})
-        elif x < 0.12:
+        elif x < 0.16:
             steps.append({'clock': r.choice([1, 1, 2, 61, 3600])})
-        elif x < 0.18 and last is not None:
+        elif x < 0.22 and last is not None:
             # request rejected at header level after the version was set
             rq = gen.gen_request(ctx, p_batch=0.0)
             k = r.choice(['future', 'stale', 'async', 'undo', 'badver'])
@@ -211,6 +219,19 @@ def execute(plan):
                 A.clock.advance(st['clock'])
                 A.event('clock', dt=st['clock'])
                 continue
+            if 'bad' in st:
+                from sim import mutate, reqs
+                f = reqs.build_request(st['bad'], A.resolve,
+                                       now=A.clock.now)
+                try:
+                    f = mutate.apply(f, st['mut'])
+                except Exception:
+                    pass
+                A.send_raw(st['bad'].get('actor', 0), f)
+                conn = A.session(st['bad'].get('actor', 0))[1]
+                conn.inbox = bytearray()
+                probes['prefix_corrupted_frame'] += 1
+                continue
             resp = A.request(st)
             last = st
             if st.get('hdr_reject'):
@@ -273,7 +294,8 @@ def execute(plan):
             'probes': probes, 'states': states,
             'sim_s': A.clock.covered(), 'steps': A.requests + 1,
             'sample': {'prefix_ops': [[o['op'] for o in s['items']]
-                                      if 'items' in s else s
+                                      if 'items' in s else
+                                      ('bad' if 'bad' in s else s)
                                       for s in plan['steps']],
                        'probe': [dict((k, v) for k, v in o.items()
                                       if k in ('op', 'uid'))
